@@ -658,10 +658,11 @@ struct json_object *json_tokener_parse_ex(struct json_tokener *tok, const char *
 				MC_DEBUG("json_tokener_comment: %s\n", tok->pb->buf);
 				state = json_tokener_state_eatws;
 			}
-			else
+			else if (c != '*')
 			{
 				state = json_tokener_state_comment;
 			}
+			// else: another '*', which may still be followed by the closing '/'
 			break;
 
 		case json_tokener_state_string:
